@@ -776,6 +776,9 @@ def run(ctx, model_ok=True):
     sb = Sandbox(ctx)
     jobs = []
     try:
+        # (one interleaving first, so that the evidence samples show more than one family)
+        run_schedule(ctx, sb, 2, [("spawn",), ("spawn",)] + [("step", 0), ("step", 1)] * 4 + [("kill", 0)]
+                     + [("step", 1)] * 6 + [("spawn",)] + [("step", 2)] * 4, jobs, "showcase")
         scen_kill(ctx, sb, jobs)
         scen_eio(ctx, sb, jobs)
         scen_leftover(ctx, sb, jobs)
@@ -798,7 +801,7 @@ def search(ctx):
     try:
         killer = Killer(ctx)
         try:
-            for n in (2, 3):
+            for n in (2,):
                 tab, ser = reference(sb, n)
                 for k in range(len(ser)):
                     d = sb.fresh_dir()
